@@ -804,6 +804,9 @@ func lookupContract(fn *ssa.Function) (contract, bool) {
 		switch o.String() {
 		case "maps.Clone":
 			return contract{fresh: true, aliasArg: -1}, true
+		case "maps.Copy":
+			// copies the entries of the source into the destination map
+			return contract{writes: []int{0}, aliasArg: -1}, true
 		case "slices.Contains", "slices.Index", "slices.Equal":
 			// read their arguments only (comparable element types: no user code runs)
 			return contract{fresh: true, aliasArg: -1}, true
@@ -822,6 +825,9 @@ func contractByName(short string) (contract, bool) {
 	}
 	if strings.HasPrefix(short, "maps.Clone") {
 		return contract{fresh: true, aliasArg: -1}, true
+	}
+	if strings.HasPrefix(short, "maps.Copy[") {
+		return contract{writes: []int{0}, aliasArg: -1}, true
 	}
 	for _, pure := range []string{"slices.Contains[", "slices.Index[", "slices.Equal["} {
 		if strings.HasPrefix(short, pure) {
